@@ -29,6 +29,7 @@ def run(R, env):
     R.rule("C08.R5", "hook accounts: every success exit is behind info.sender == derive(channel, native address of the variant's role, protocol prefix); a failed derivation is an error exit")
     R.rule("C08.R6", "ADMIN is written only by instantiate and AcceptOwnership")
     R.rule("C08.R7", "Withdraw pays only the caller: MsgSend.to_address and the request key are info.sender")
+    R.rule("C08.R8", "`the nominated account` is well defined: nomination stores nominee + time lock, revocation clears both, acceptance consumes the nomination (rule bodies of C12.R1-R3 for the staking contract)")
     R.assume("an Err result discards every write and message of the transaction (CosmWasm), so refusal = no reachable success exit")
 
     dctx, table = handlers(prog, CRATE)
@@ -84,3 +85,18 @@ def run(R, env):
             shared.withdraw_pays_caller(R, env, prog, dctx, arm, "C08.R7")
     R.floor("C08.R1", "admin-guarded variants", n_admin, 7)
     shared.admin_writers(R, env, prog, CRATE, "C08.R6")
+    from engine.runner import Remap
+    from . import C12
+
+    class _OnlyStaking(Remap):
+        def ob(self, rule, instance, ok, detail="", loc=None, fn=None, found=None):
+            if instance.startswith("treasury"):
+                return bool(ok)
+            return Remap.ob(self, rule, instance, ok, detail, loc, fn, found)
+
+        def floor(self, rule, what, count, minimum):
+            if what.startswith("treasury"):
+                return None
+            return Remap.floor(self, rule, what, count, minimum)
+
+    C12.run(_OnlyStaking(R, {"C12.R1": "C08.R8", "C12.R2": "C08.R8", "C12.R3": "C08.R8"}), env)
